@@ -495,6 +495,9 @@ def rotation_matrix_word(ctx, repo):
             return w[:nm] + [(k_, w_, t_, not i_) for k_, w_, t_, i_ in w[nm:]] if mat_or_none(e.left, env) is not None else (_ for _ in ()).throw(Unknown("division"))
         if isinstance(e, _a.Call) and src(e.func) in ("np.array", "np.asarray") and e.args:
             return mat(e.args[0], env)
+        if isinstance(e, _a.Call) and src(e.func) in ("np.diag", "numpy.diag") and len(e.args) == 1 and not e.keywords and is_vec(e.args[0], env):
+            # the diagonal matrix of a sign vector is the factor D itself: its side in the product is where it is written
+            return vec(e.args[0], env)
         raise Unknown(f"matrix {src(e)[:70]}")
 
     def mat_or_none(e, env):
